@@ -5,7 +5,7 @@ From ClapModel Require Import Parse.Cmd Parse.Build Parse.Valid Parse.Matcher Pa
 From ClapModel Require Import ParseProofs.Safe ParseProofs.Invariant ParseProofs.Totality
                               ParseProofs.TotalityMain ParseProofs.IndexInv ParseProofs.Provenance Properties.C01.
 From ClapModel Require Import ParseProofs.Actions ParseProofs.Unparse ParseProofs.UnparseProofs ParseProofs.UnparseTop
-                              ParseProofs.UnparseExamples.
+                              ParseProofs.UnparseSub ParseProofs.UnparseTree ParseProofs.UnparseExamples.
 From Coq Require Import ZArith Sorting.Sorted List.
 Import ListNotations.
 Open Scope N_scope.
@@ -175,3 +175,83 @@ Proof.
   eexists. split; [vm_compute; reflexivity|]. repeat split.
 Qed.
 Print Assumptions C02_unparse_nonvacuous.
+
+(** * Subcommands and the top level (ParseProofs/UnparseSub.v, UnparseTree.v)
+
+    An invocation tree [inv] is the items of one level, optionally followed by a subcommand name
+    (or alias) and the subcommand's own tree; [render_inv] prints it; [run_inv] is its meaning: per
+    level the meaning of the items, the child's matches stored under the child's name, then the
+    env/default/validation phases.  Class [wf_inv] (boolean, on the built tree): every level [conv]
+    and without [ignore_errors], its items [wf_items]; a subcommand name follows only a finished
+    occurrence, is recognised, is not the generated [help], no [args_conflicts_with_subcommands]. *)
+
+(** the command-line machinery of a level never touches the subcommand slot (results and error
+    states commute with storing anything there) *)
+Theorem C02_subcommand_slot_untouched : forall c x st,
+  resolve_pending c (ssub x st) = psub x (resolve_pending c st).
+Proof. exact resolve_pending_sub. Qed.
+Print Assumptions C02_subcommand_slot_untouched.
+
+(** THE UN-PARSER THEOREM for a command tree, by induction on the tree: [get_matches_with] on the
+    rendered tree is the tree's meaning (an equality of results, errors included). *)
+Theorem C02_unparse_tree : forall i c f, valid_tree (S f) c = true -> wf_inv c i = true ->
+  get_matches_with (S f) c (render_inv i) ps_new = run_inv c i.
+Proof. exact gmw_inv. Qed.
+Print Assumptions C02_unparse_tree.
+
+(** ... and for [try_get_matches_from_mut]: argv = binary name followed by the rendered tree.
+    ([finish_outcome] is [_do_parse]'s own last step: the merge of global values, C09.) *)
+Theorem C02_unparse : forall c0 bin i, is_set s_no_binary_name c0 = false ->
+  valid (with_bin c0 bin) = true -> wf_inv (build_self (with_bin c0 bin)) i = true ->
+  parse_top c0 (bin :: render_inv i) =
+  finish_outcome (with_bin c0 bin) (run_inv (build_self (with_bin c0 bin)) i).
+Proof. exact parse_top_inv. Qed.
+Print Assumptions C02_unparse.
+
+(** when the child succeeds, the level's own entries are the fold of [react] over the level's
+    occurrences, with the child's matches in the subcommand slot *)
+Theorem C02_unparse_sub_level : forall c its name j scb sub_st st, conv c = true ->
+  wf_items c PSValuesDone 1 its = true -> child c name = Some scb -> run_inv scb j = ROk sub_st ->
+  (run_inv c (ISub its name j) = ROk st <->
+   exists st1, react_all c (occs c 1 its) ps_new = ROk st1 /\
+               post_loop c (ssub (Some (c_name scb, into_inner (mt sub_st))) st1) = ROk st).
+Proof. exact run_inv_sub_ok. Qed.
+Print Assumptions C02_unparse_sub_level.
+
+(** CONSERVATION at the root of any tree (hence, by [C02_unparse_tree], at every level: each level
+    is parsed by [get_matches_with] on the rendering of its subtree). *)
+Theorem C02_conservation_tree : forall i c f st, valid_tree (S f) c = true -> wf_inv c i = true ->
+  get_matches_with (S f) c (render_inv i) ps_new = ROk st ->
+  forall a, In a (c_args c) ->
+    (forall gs, denote_arg c (a_id a) (inv_items i) = Some gs -> groups_of (a_id a) (mt st) = Some gs)
+    /\ (forall e, fm_get (a_id a) (mt_args (mt st)) = Some e -> m_source e = Some SCmdLine ->
+          denote_arg c (a_id a) (inv_items i) = Some (m_raw e)).
+Proof. exact conservation_inv. Qed.
+Print Assumptions C02_conservation_tree.
+
+(** the subcommand chain is kept: the matches hold the child's matches under the child's name *)
+Theorem C02_chain_kept : forall c its name j st, wf_inv c (ISub its name j) = true ->
+  run_inv c (ISub its name j) = ROk st ->
+  exists scb sub_st, child c name = Some scb /\ run_inv scb j = ROk sub_st /\
+    mt_sub (mt st) = Some (c_name scb, into_inner (mt sub_st)).
+Proof. exact chain_inv. Qed.
+Print Assumptions C02_chain_kept.
+
+(** Non-vacuity for trees: [prog --qu -voA go -x --name=V F] (subcommand [run] by its alias [go]):
+    the hypotheses of [C02_unparse] hold and [parse_top] reports the chain and the values. *)
+Theorem C02_unparse_tree_nonvacuous :
+  is_set s_no_binary_name UnparseEx.t0 = false /\ valid (with_bin UnparseEx.t0 UnparseEx.tbin) = true /\
+  wf_inv (build_self (with_bin UnparseEx.t0 UnparseEx.tbin)) UnparseEx.tinv = true /\
+  render_inv UnparseEx.tinv =
+    [[45; 45; 113; 117]; [45; 118; 111; 65]; [103; 111]; [45; 120]; [45; 45; 110; 97; 109; 101; 61; 86]; [70]] /\
+  exists m sm,
+    parse_top UnparseEx.t0 (UnparseEx.tbin :: render_inv UnparseEx.tinv) = OOk m /\
+    ms_sub m = Some ([114; 117; 110], sm) /\
+    UnparseEx.raw_of [111] m = Some [[[65]]] /\ UnparseEx.raw_of [118] m = Some [[[49]]] /\
+    UnparseEx.raw_of [120] sm = Some [[s_true]] /\ UnparseEx.raw_of [110] sm = Some [[[86]]] /\
+    UnparseEx.raw_of [102] sm = Some [[[70]]].
+Proof.
+  split; [exact UnparseEx.ex_tree_nobin|]. split; [exact UnparseEx.ex_tree_valid|]. split; [exact UnparseEx.ex_tree_wf|].
+  split; [exact UnparseEx.ex_tree_render|]. exact UnparseEx.ex_tree_parse.
+Qed.
+Print Assumptions C02_unparse_tree_nonvacuous.
